@@ -120,7 +120,10 @@ def check_state(orig_entries, data, s, what):
     end = zip_end(data)
     if end != len(data):
         return "stale bytes after the end of the archive (%s bytes)" % (None if end is None else len(data) - end)
-    got = mammoth.read_embedded_style_map(io.BytesIO(data))
+    try:
+        got = mammoth.read_embedded_style_map(io.BytesIO(data))
+    except Exception as e:
+        return "read_embedded_style_map raised %s: %s" % (type(e).__name__, str(e)[:120])
     if got != s:
         return "read_embedded_style_map does not return the embedded string"
     names = z.namelist()
